@@ -550,3 +550,65 @@ package forwarder
 //@     assert [dports] arg0 == fd.DstPorts
 //@   at call append#10:
 //@     assert [dport]  len(arg1) == 1 && arg1[0].Type == gtp5gnl.FLOW_DESCRIPTION_DEST_PORT
+
+// ---------------------------------------------------------------------------------------------
+// Start-up (C20): the forwarder starts only against a gtp5g whose version v satisfies 0.9.5 <= v < 0.10.0, in the
+// order go-version implements (A-VERSION).
+//@ func (g *Gtp5g) checkVersion() (err error)
+//@   requires g != nil
+//@   ensures [window] err == nil ==> ok(gtp5gnl.GetVersion(g.client)) && ok(version.NewVersion(val(gtp5gnl.GetVersion(g.client)))) &&
+//@                      !val(version.NewVersion(val(gtp5gnl.GetVersion(g.client)))).LessThan(val(version.NewVersion("0.9.5"))) &&
+//@                      !val(version.NewVersion(val(gtp5gnl.GetVersion(g.client)))).GreaterThanOrEqual(val(version.NewVersion("0.10.0")))
+//@   modifies nothing
+//@   serves C20 C07
+//@   at call NewVersion#1:
+//@     assert [min] arg0 == "0.9.5"
+//@   at call NewVersion#2:
+//@     assert [max] arg0 == "0.10.0"
+
+// A-CLOSE (trusted, not verified here): tearing a Gtp5g down needs nothing from the caller but the object.
+//@ func (g *Gtp5g) Close()
+//@   requires g != nil
+//@   modifies *
+
+//@ func NewDriver(wg *sync.WaitGroup, cfg *factory.Config) (d Driver, err error)
+//@   requires cfg != nil && wg != nil
+//@   ensures [nogtpu] old(cfg.Gtpu == nil) ==> err != nil
+//@   ensures [kind]   old(cfg.Gtpu != nil && cfg.Gtpu.Forwarder != "gtp5g") ==> err != nil && d == nil
+//@   ensures [noif]   old(cfg.Gtpu != nil && cfg.Gtpu.Forwarder == "gtp5g" && len(cfg.Gtpu.IfList) == 0) ==> err != nil
+//@   ensures [err]    err != nil ==> d == nil
+//@   modifies *
+//@   flag perreturn
+//@   serves C20 C07
+//@   loop range(cfg.DnnList):
+//@     invariant [drv] driver != nil && link != nil
+//@   at call OpenGtp5g:
+//@     assert [addr] len(cfg.Gtpu.IfList) > 0 && arg1 == sprintf("%s:%d", cfg.Gtpu.IfList[0].Addr, 2152) && arg2 == cfg.Gtpu.IfList[0].MTU
+//@   at call ParseCIDR:
+//@     assert [cidr] arg0 == dnn.Cidr
+
+// OpenGtp5g: a Gtp5g is handed out only after checkVersion accepted the module ([ver]); every failure path closes what
+// was opened and returns no driver.  A-NLOPEN (assumed): constructors of the netlink libraries return non-nil objects
+// together with a nil error.
+//@ func OpenGtp5g(wg *sync.WaitGroup, addr string, mtu uint32) (g *Gtp5g, err error)
+//@   requires wg != nil
+//@   ensures [err]  err != nil ==> g == nil
+//@   ensures [ok]   err == nil ==> g != nil && g.link != nil && g.link.link != nil && g.client != nil && g.bsnl != nil && g.ps != nil
+//@   ensures [ver]  err == nil ==> ok(version.NewVersion(val(gtp5gnl.GetVersion(g.client)))) &&
+//@                      !val(version.NewVersion(val(gtp5gnl.GetVersion(g.client)))).LessThan(val(version.NewVersion("0.9.5"))) &&
+//@                      !val(version.NewVersion(val(gtp5gnl.GetVersion(g.client)))).GreaterThanOrEqual(val(version.NewVersion("0.10.0")))
+//@   modifies *
+//@   flag perreturn
+//@   serves C20 C07
+//@   at call OpenGtp5gLink:
+//@     assert [args] arg1 == addr && arg2 == mtu
+//@   after call OpenGtp5gLink:
+//@     assume [A-NLOPEN] ret1 == nil ==> ret0 != nil && ret0.link != nil
+//@   after call NewClient#1:
+//@     assume [A-NLOPEN] ret1 == nil ==> ret0 != nil
+//@   after call NewClient#2:
+//@     assume [A-NLOPEN] ret1 == nil ==> ret0 != nil
+//@   after call OpenServer#1:
+//@     assume [A-NLOPEN] ret1 == nil ==> ret0 != nil
+//@   after call OpenServer#2:
+//@     assume [A-NLOPEN] ret1 == nil ==> ret0 != nil
